@@ -125,7 +125,7 @@ func entryIDs(es []vkit.SnapEntry) []string {
 // 16 child processes (CI x UPDATE_SNAPS x Sort), 90 cells each.
 func checkC05(c *vkit.Ctx) {
 	c.P.Rule = "complete product CI{on,off} x Update{unset,true,false} x UPDATE_SNAPS{unset,true,clean,other} x Sort{off,on} x entry point(5) x entry state{missing,equal,different} x obsolete{absent,present} = 1440 cells, swept for three value families (plain, blank stored value, hostile lines); 16 real child processes per sweep (environment variables CI / UPDATE_SNAPS set for real, Clean option) each running 90 cells in separate absolute directories, then Clean; oracle: literal mode table for the call outcome and for the per-path directory delta of the Match phase and of the Clean phase (backdated mtimes: untouched means not written), Clean summary verbs and lists; non-trivial = every cell (each is a distinct configuration); the table is swept completely on every run; thorough repeats it for several value/name seeds and adds an strace witness on CI cells"
-	c.P.Assumptions = []string{"children run with a minimal environment so that only CI=true switches CI detection on", "strace (thorough) is a second witness only; the digest decides"}
+	c.P.Assumptions = []string{"children run with a minimal environment plus one of eleven CI-on variable sets (CI=true|1|empty, GITHUB_ACTIONS, GITLAB_CI, CIRCLECI, BUILD_NUMBER, RUN_ID, CONTINUOUS_INTEGRATION) or, for CI off, nothing or CI=false (alone, or overriding a vendor variable) - the detection rule is ciinfo's", "strace (thorough) is a second witness only; the digest decides"}
 	p, done := workerProgram(c, "")
 	defer done()
 	if p == nil {
@@ -155,6 +155,11 @@ func checkC05(c *vkit.Ctx) {
 		}
 		pr := procs[i%len(procs)]
 		round := i / len(procs)
+		if pr.Upd == "yes-please" {
+			// "any other string": near-misses of the two recognised values included
+			pr.Upd = []string{"yes-please", "TRUE", "True", " true", "true ", "1", "false", "CLEAN", "clean ", "truee", "cleanup", "t"}[(round+int(c.P.Seed))%12]
+			c.Count("processes_with_other_UPDATE_SNAPS:"+fmt.Sprintf("%q", pr.Upd), 1)
+		}
 		c.Guard(pr, func() { runC05Proc(c, p, i, round, pr.CI, pr.Upd, pr.Sort) })
 	}
 	if c.P.Exhaustive == nil {
@@ -216,7 +221,8 @@ func runC05Proc(c *vkit.Ctx, p *Program, caseIdx, round int, ci bool, updVar str
 		defer os.Remove(straceLog)
 	}
 	res := p.RunChild(opt)
-	procDesc := fmt.Sprintf("process CI=%v UPDATE_SNAPS=%q sort=%v", ci, updVar, sortOpt)
+	procDesc := fmt.Sprintf("process CI=%v %v UPDATE_SNAPS=%q sort=%v", ci, res.CIEnv, updVar, sortOpt)
+	c.Count(fmt.Sprintf("processes_with_ci_environment:%v", res.CIEnv), 1)
 	if !res.Complete {
 		c.Inconclusive(procDesc + ": child did not complete: " + fmt.Sprint(res.Err) + " " + res.Stderr)
 		return
